@@ -51,6 +51,9 @@ def handle : Handler
   | "alias_ior", args => run3 mpz_ior args
   | "alias_xor", args => run3 mpz_xor args
   | "alias_com", args => run3 (fun w u _ => mpz_com w u) args
+  | "alias_neg", args => run3 (fun w u _ => mpz_neg w u) args
+  | "alias_abs", args => run3 (fun w u _ => mpz_abs w u) args
+  | "alias_set", args => run3 (fun w u _ => mpz_set w u) args
   | "alias_mul_2exp", args => runB mul_2exp args
   | "alias_tdiv_q_2exp", args => runB tdiv_q_2exp args
   | _, _ => none
